@@ -77,7 +77,7 @@ Proof.
   destruct (take 4 inp) as [[h r]| |] eqn:E; try discriminate.
   destruct (take_ok _ _ _ _ E) as [-> L].
   destruct h as [|b0 [|b1 [|b2 [|b3 [|? ?]]]]]; try discriminate.
-  injection H as <- <-. exists [b0; b1; b2; b3]. split; [reflexivity|]. intros r'. reflexivity.
+  injection H as <- <-. exists [b0; b1; b2; b3]. split; [reflexivity|]. intros r'. unfold sgetble32. cbn [app]. rewrite take4. reflexivity.
 Qed.
 
 (* ------------------------------------------------------------------------------------------------ *)
@@ -120,12 +120,12 @@ Section Reject.
       unfold sgetble32 in EG. destruct (take 4 t) as [[h r']| |] eqn:ET; try discriminate.
       destruct (take_ok _ _ _ _ ET) as [Et _].
       destruct h as [|b0 [|b1 [|b2 [|b3 [|? ?]]]]]; try discriminate.
-      injection EG as EG <-. rewrite app_nil_r in Et. subst t.
+      injection EG as EG ->. rewrite app_nil_r in Et. subst t.
       inversion Ht as [|? ? B0 Ht1]; subst. inversion Ht1 as [|? ? B1 Ht2]; subst.
       inversion Ht2 as [|? ? B2 Ht3]; subst. inversion Ht3 as [|? ? B3 _]; subst.
       exists (consumed ++ [c]). rewrite <- app_assoc. cbn [app]. do 2 f_equal.
       assert (E32 : le32 b0 b1 b2 b3 = crc32c_spec 0 (consumed ++ [c])).
-      { rewrite <- EC, <- EG. unfold le32. rewrite (N.mod_small (N.shiftl b3 24)); [reflexivity|].
+      { rewrite <- EC. unfold le32. rewrite (N.mod_small (N.shiftl b3 24)); [reflexivity|].
         rewrite N.shiftl_mul_pow2. change (2^24) with 16777216. change (2^32) with 4294967296. lia. }
       assert (Hw : crc32c_spec 0 (consumed ++ [c]) < 2^32) by (rewrite <- E32; apply le32_lt; assumption).
       unfold sputble32. apply le32_inj; try assumption; try apply land255_lt.
@@ -165,7 +165,7 @@ Section Reject.
     - destruct (sgetble32 t) as [[stored rest]| |] eqn:EG; try discriminate.
       destruct (stored =? crc32c_spec 0 (consumed ++ [c])); [|discriminate].
       apply loop_checked in H. subst rest.
-      destruct (regular_sgetble32 _ _ _ EG) as (l & El & Hl). rewrite app_nil_r in El. subst t.
+      destruct (regular_sgetble32 _ _ _ EG) as (l & El & Hl). rewrite app_nil_r in El. subst l.
       assert (S4 : strict sgetble32).
       { intros l0 a0 H0 l1 l2 -> Hl2. unfold sgetble32.
         pose proof (H0 []) as K. rewrite app_nil_r in K. unfold sgetble32 in K.
@@ -183,7 +183,7 @@ Section Reject.
       rewrite consumed_of_app in H.
       destruct (split_prefix l rest p' q E) as [[m [-> ->]]|[m [-> ->]]].
       + destruct m as [|y m].
-        * rewrite app_nil_r. pose proof (Hl []) as K. rewrite app_nil_r in K. rewrite K.
+        * rewrite app_nil_r in Hl. pose proof (Hl []) as K. rewrite app_nil_r in K. rewrite K.
           destruct fuel'; cbn [loader_loop]; discriminate.
         * rewrite (record_strict c st _ _ Hl p' (y :: m) eq_refl); discriminate.
       + rewrite (Hl m). exact (IH _ _ _ _ H m q eq_refl Hq fuel' _ x).
@@ -197,7 +197,7 @@ Section Reject.
     rewrite consumed_of_app in H.
     destruct (split_prefix h rest p q E) as [[m [-> ->]]|[m [-> ->]]].
     - destruct m as [|y m].
-      + rewrite app_nil_r. pose proof (Hh []) as K. rewrite app_nil_r in K. rewrite K. cbn [length loader_loop]. discriminate.
+      + rewrite app_nil_r in Hh. pose proof (Hh []) as K. rewrite app_nil_r in K. rewrite K. cbn [length loader_loop]. discriminate.
       + rewrite (header_strict _ _ Hh p (y :: m) eq_refl); discriminate.
     - rewrite (Hh m). exact (loop_truncated _ _ _ _ _ H m q eq_refl Hq _ _ x).
   Qed.
